@@ -28,7 +28,7 @@ static int idx(list_node_t *n)
 			return -(l + 1);
 	return 999;
 }
-static list_node_t *node(int i) { return &items[i - 1].link; }
+static list_node_t *node(int i) { return i ? &items[i - 1].link : NULL; }   /* 0: the NULL node (searching for it finds nothing and ends past the end) */
 static int member(int n);
 static int cmp(list_node_t *a, list_node_t *b)
 {
@@ -138,8 +138,8 @@ static void gen(long seed, int nexec, int nops, int nn, int nl)
 			case 4: apply("Extract", l, 0); break;
 			case 5: apply("Remove", l, n); break;
 			case 6: apply("Remove", m ? m : l, n); break;
-			case 7: apply("Contains", l, n); break;
-			case 8: apply("ContainsIter", m && drv_below(2) ? m : l, n); break;
+			case 7: apply("Contains", l, drv_below(12) ? n : 0); break;
+			case 8: apply("ContainsIter", m && drv_below(2) ? m : l, drv_below(10) ? n : 0); break;
 			case 9: apply("Iterate", l, 0); break;
 			case 10: if (itl) apply("IterNext", 0, 0); break;
 			case 11: if (itl && !m) apply("IterInsert", n, 0); break;
